@@ -100,11 +100,43 @@ def _collisions(a: Any, b: Any, depth: int = 1) -> set:
     return labs
 
 
+class _Section(dict):
+    """A dict subclass (configuration defaults written in code are often OrderedDicts or own mapping types)."""
+
+
+def _as_subclass(v: Any, kind: int) -> Any:
+    import collections
+
+    if isinstance(v, dict):
+        cls = {1: collections.OrderedDict, 2: _Section}[kind]
+        return cls((k, _as_subclass(x, kind)) for k, x in v.items())
+    if isinstance(v, list):
+        return [_as_subclass(x, kind) for x in v]
+    return v
+
+
+def _plain(v: Any) -> Any:
+    """Dictionaries of any dict type as plain dicts (the statement speaks of dictionaries, not of their classes)."""
+    if isinstance(v, dict):
+        return {k: _plain(x) for k, x in v.items()}
+    if isinstance(v, list):
+        return [_plain(x) for x in v]
+    return v
+
+
 def run_case(case: dict, prop: str) -> Outcome:
-    from asphalt.core import merge_config
+    from asphalt.core import merge_config as _merge_config
+
+    def merge_config(x: Any, y: Any) -> Any:
+        r = _merge_config(x, y)
+        return _plain(r) if (case.get("sub_a") or case.get("sub_b")) and isinstance(r, dict) else r
 
     out = Outcome()
     a, b = copy.deepcopy(case["a"]), copy.deepcopy(case["b"])
+    if case.get("sub_a") and a is not None:
+        a = _as_subclass(a, case["sub_a"])
+    if case.get("sub_b") and b is not None:
+        b = _as_subclass(b, case["sub_b"])
     # optionally the SAME dict object sits at two places of an argument (YAML anchors, reused option dicts)
     for which, arg in (("alias_a", a), ("alias_b", b)):
         al = case.get(which)
@@ -123,12 +155,14 @@ def run_case(case: dict, prop: str) -> Outcome:
         k = KEYS[(wrap - i) % len(KEYS)]
         a = None if a is None else {k: a}
         b = None if b is None else {k: b}
-    a0, b0 = copy.deepcopy(a), copy.deepcopy(b)
+    a0, b0 = _plain(copy.deepcopy(a)), _plain(copy.deepcopy(b))
     ga, gb = _idgraph(a), _idgraph(b)
     ga_post = (ga, gb)
     labs = _collisions(a, b)
     if case.get("alias_a") or case.get("alias_b"):
         labs.add("shared-subdict")
+    if case.get("sub_a") or case.get("sub_b"):
+        labs.add("dict-subclass")
     if wrap:
         labs.add("nesting>32" if wrap + 1 > 32 else "nesting>8" if wrap + 1 > 8 else "nesting<=8")
     if case.get("remerge"):
@@ -140,7 +174,7 @@ def run_case(case: dict, prop: str) -> Outcome:
     except Exception as exc:
         out.add("merge", "merge:raises:" + type(exc).__name__, f"merge_config raised {short_exc(exc)}")
         return out
-    exp = ref_merge(a0, b0)
+    exp = _plain(ref_merge(a0, b0))
     out.trace = {"result": res}
     if not isinstance(res, dict):
         out.add("merge", "merge:not-dict", f"result is {type(res).__name__}")
@@ -160,9 +194,9 @@ def run_case(case: dict, prop: str) -> Outcome:
     if res is a or res is b:
         out.add("purity", "purity:result-is-argument", "result is one of the arguments, not a new dict")
     ga, gb = (ga, gb)
-    if not strict_eq(a, a0) or _idgraph(a) != ga_post[0]:
+    if not strict_eq(_plain(a), a0) or _idgraph(a) != ga_post[0]:
         out.add("purity", "purity:original-modified", f"original modified: before {a0!r} after {a!r}")
-    if not strict_eq(b, b0) or _idgraph(b) != ga_post[1]:
+    if not strict_eq(_plain(b), b0) or _idgraph(b) != ga_post[1]:
         out.add("purity", "purity:overrides-modified", f"overrides modified: before {b0!r} after {b!r}")
     # laws (cheap, and they do not go through the reference)
     try:
@@ -223,7 +257,8 @@ def _remerge(out: Outcome, rm: dict, a: Any, b: Any, res: dict, wrap: int) -> No
     except Exception as exc:
         out.add("merge", "merge:raises:" + type(exc).__name__, f"second merge raised {short_exc(exc)}")
         return
-    exp3 = ref_merge(a1, b1)
+    exp3 = _plain(ref_merge(a1, b1))
+    res3 = _plain(res3) if isinstance(res3, dict) else res3
     if not strict_eq(res3, exp3):
         out.add("merge", "merge:stale-second-merge",
                 f"after changing {rm['mut']} at {path!r} [{rm['key']!r}] = {rm['value']!r}, merge_config({a1!r}, {b1!r}) = {res3!r}, "
@@ -279,6 +314,9 @@ def _pairs(draw: Any, max_keys: int) -> dict:
                 j = draw(ints(0, len(ps) - 1))
                 if i != j:
                     case[which] = [list(ps[i]), list(ps[j])]
+    if draw(ints(0, 99)) < 15:
+        # one side (or both, with different classes) uses a dict subclass throughout
+        case["sub_a"], case["sub_b"] = [(1, 0), (0, 1), (2, 0), (0, 2), (1, 2), (2, 2)][draw(ints(0, 5))]
     r = draw(ints(0, 99))
     if r < 12:
         case["wrap"] = draw(ints(1, 100))
